@@ -633,6 +633,9 @@ def run(tier: str, seed: int) -> Result:
     n_class = class_sweep(res)
     n_stall = stall_sweep(res)
     n_burst = burst_sweep(res)
+    from . import c12 as _c12
+
+    n_raising = _c12.raising_subscriber_sweep(res, "C11")
     cfgs = [("", 4 if q else 5, 1 if q else 2), ("A", 3 if q else 5, 2), ("B", 3 if q else 5, 2), ("AB", 3 if q else 4, 1 if q else 2),
             ("AC", 3 if q else 4, 2), ("ABC", 3 if q else 4, 1 if q else 2), ("BD", 3 if q else 4, 1 if q else 2),
             ("B.D", 3 if q else 4, 1 if q else 2), ("debug:AB", 3 if q else 4, 1 if q else 2), ("noise:AB", 3 if q else 4, 1 if q else 2), ("recycle:AB", 3 if q else 4, 1 if q else 2),
@@ -674,6 +677,7 @@ def run(tier: str, seed: int) -> Result:
         "close_cause_class_runs": n_class,
         "stalled_loop_runs": n_stall,
         "burst_read_runs": n_burst,
+        "raising_subscriber_runs": n_raising,
         "distinct_outcomes": len(total.outcomes),
         "configs": per_cfg,
         "exhaustive": not total.time_capped,
@@ -690,6 +694,13 @@ def run(tier: str, seed: int) -> Result:
 
 def replay(rp: dict[str, Any]) -> bool:
     d = rp["detail"]
+    if d.get("harness") == "c12-raising":
+        from . import c12 as _c12
+
+        r = Result("C11", "model_checking")
+        _c12.raising_subscriber_sweep(r, "C11", only=d["key"])
+        print(d["key"], "->", [v.clause for v in r.violations] or "holds")
+        return not r.violations
     if d.get("harness") == "c11-burst":
         r = Result("C11", "model_checking")
         burst_sweep(r)
